@@ -16,7 +16,7 @@ Definition LONG_MAX : Z := 9223372036854775807.
 Definition LONG_MIN : Z := -9223372036854775808.
 Definition in_long (z : Z) : bool := (LONG_MIN <=? z) && (z <=? LONG_MAX).
 
-Record strtol_res := { sl_val : Z; sl_rest : str (* *endptr onwards *); sl_erange : bool }.
+Record strtol_res := { sl_val : Z; sl_rest : str (* *endptr onwards *); sl_erange : bool; sl_noconv : bool (* endptr == nptr *) }.
 
 (* digit of c in the given base, if any *)
 Definition digit_in (base : N) (c : byte) : option N :=
@@ -60,17 +60,24 @@ Definition strtol (s : str) (base : N) : strtol_res :=
     end in
   let '(mag, rest, n) := digits b s3 0%N 0%nat in
   match n with
-  | O => {| sl_val := 0; sl_rest := s; sl_erange := false |}     (* no conversion: endptr = nptr *)
+  | O => {| sl_val := 0; sl_rest := s; sl_erange := false; sl_noconv := true |}     (* no conversion: endptr = nptr *)
   | _ =>
     let z := if neg then - Z.of_N mag else Z.of_N mag in
-    if in_long z then {| sl_val := z; sl_rest := rest; sl_erange := false |}
-    else {| sl_val := if neg then LONG_MIN else LONG_MAX; sl_rest := rest; sl_erange := true |}
+    if in_long z then {| sl_val := z; sl_rest := rest; sl_erange := false; sl_noconv := false |}
+    else {| sl_val := if neg then LONG_MIN else LONG_MAX; sl_rest := rest; sl_erange := true; sl_noconv := false |}
   end.
 
 (* ---- cfg_setopt(), case CFGT_INT without a parse callback ---- *)
 
 Inductive conv_res (A : Type) := COk (a : A) | CInvalid | CRange.
 Arguments COk {A}. Arguments CInvalid {A}. Arguments CRange {A}.
+
+(* cfg_is_digits(s, radix): digits of the radix only, at least one *)
+Definition is_digits (s : str) (radix : N) : bool :=
+  match s with
+  | [] => false
+  | _ => forallb (fun c => match digit_val c with Some d => (d <? radix)%N | None => false end) s
+  end.
 
 Definition conv_int (value : str) : conv_res Z :=
   let '(radix, int_str) :=
@@ -81,13 +88,15 @@ Definition conv_int (value : str) : conv_res Z :=
           | c1 :: rest' =>
               if Byte.eqb c1 x62 then (2%N, rest')
               else if Byte.eqb c1 x78 then (16%N, rest')
-              else (8%N, rest)
-          | [] => (8%N, rest)
+              else (8%N, value)
+          | [] => (8%N, value)
           end
         else (0%N, value)
     | [] => (0%N, value)
     end in
   let r := strtol int_str radix in
+  if (if (radix =? 0)%N then sl_noconv r else negb (is_digits int_str radix)) then CInvalid
+  else
   match sl_rest r with
   | _ :: _ => CInvalid
   | [] => if sl_erange r then CRange else COk (sl_val r)
